@@ -98,6 +98,10 @@ type Shape struct {
 	// HeaderWide: the CAR header is valid CBOR that go-car accepts but not the encoding go-car itself writes
 	// (version 1 as the two-byte integer 0x18 0x01: "header-wide-int")
 	HeaderWide  string       `json:"header_wide,omitempty"`
+	// PaddedLengths k > 0: every k-th section's length prefix is written as a longer (non-minimal) varint with one
+	// or two extra bytes, a form every uvarint reader accepts; the truth records the offsets and section lengths
+	// of the bytes as written
+	PaddedLengths int `json:"padded_lengths,omitempty"`
 	RootSha512  bool         `json:"root_sha512,omitempty"`  // epoch node CID uses sha2-512: longer CAR header
 	SubsetEvery int          `json:"subset_every,omitempty"` // blocks per subset (0 = one subset)
 	Blocks      []BlockShape `json:"blocks"`
@@ -229,6 +233,13 @@ func (g *gen) add(data []byte, kind int, sha512root bool) (cid.Cid, int) {
 	cb := c.Bytes()
 	var lenbuf [binary.MaxVarintLen64]byte
 	n := binary.PutUvarint(lenbuf[:], uint64(len(cb)+len(data)))
+	if k := g.shape.PaddedLengths; k > 0 && (len(g.objs)+1)%k == 0 {
+		for extra := 1 + (len(g.objs)/k)%2; extra > 0; extra-- {
+			lenbuf[n-1] |= 0x80
+			lenbuf[n] = 0
+			n++
+		}
+	}
 	off := uint64(g.body.Len())
 	g.body.Write(lenbuf[:n])
 	g.body.Write(cb)
